@@ -1,12 +1,12 @@
 package main
 
 import (
-	"strconv"
 	"fmt"
 	"go/token"
 	"go/types"
 	"regexp/syntax"
 	"sort"
+	"strconv"
 	"strings"
 
 	"golang.org/x/tools/go/ssa"
@@ -767,7 +767,6 @@ func ruleC06Host(c *Checker) {
 		c.check(usesPkgString || bad != "", R, p.FuncName(fn), "package text from ModulePackage.String", p.Pos(fn.Pos()), "the package is printed by ModulePackage.String, as the parser's counterpart", "the printer assembles the package text itself instead of using ModulePackage.String: the two printers of the same package can disagree")
 	}
 }
-
 
 // ---- C06.canonurl ----
 
